@@ -18,17 +18,51 @@ STRENGTHENED = {
     "C13-2": "missed at first: the log of an assert without a boolean `ok` was not counted; entry count and numbering of the log are now checked and asserts with a missing `ok` generated",
     "C15-2": "missed at first: every build included each file once; several includes of the same path under different types in one build added",
     "C20-1": "after the UTF-16 repair in /repo the change needs an escape before a non-ASCII character inside a string; such lines were added to the text pool",
+    # second round
+    "C01-3": "missed at first: copies were rare in generated programs and `self` never reached a format expression; copy statements over tuples in scope and `self` as format argument / inside the template added to proggen",
+    "C01-4": "missed at first: no generated float was a negative zero, an infinity or a NaN; arithmetic producing them added to the float leaves",
+    "C03-3": "missed at first: C03 never built a file over an existing artifact; a fourth leg builds 1 in 8 values as a file next to older, longer artifacts of the same name",
+    "C04-3": "ported onto the repaired narrowing cache (patch.current.diff); caught by the constraint-program class added in this round (recursive constraints applied to values nested up to 14 deep, with the work bound on Shape::narrow)",
+    "C04-4": "missed at first: no generated program included a data file; includes of empty / blank / malformed / binary / missing files under every type added to the edge programs",
+    "C06-3": "missed at first: alternatives were primitives only; tuple and list alternatives with prefix / extension / changed-value probes added",
+    "C06-4": "missed at first: values were literals or opaque computations; tuples built by copying a base and overriding every field added (statically visible shape)",
+    "C09-3": "missed at first: all files of a project differed; byte-identical twin files in two directories, each importing its own ./leaf.ucg, added",
+    "C09-4": "missed at first: only relative spellings; absolute spellings with ., .. and // segments added",
+    "C12-3": "missed at first: namespace URIs were never empty; `ns = \"\"` under an inherited default namespace added",
+    "C14-3": "caught, but through a harness panic (indexing a deleted artifact); the harness now reports `failed-build-destroys-artifact ... deleted`",
+    "C14-4": "missed at first: nothing was evaluated between two out statements; function calls, map/reduce, format expressions, module instantiation and imports before / between the outs added",
+    "C15-3": "missed at first: corruptions kept the file valid UTF-8; stray bytes that make it invalid UTF-8 added (also for include str)",
+    "C15-4": "missed at first: unknown include types were only tried on a non-empty file; empty and blank files added",
+    "C16-3": "missed at first: no lazily linked broken import, and artifacts of files that fail alone were not compared; both added",
+    "C16-4": "missed at first: batches were only run from the project root; the same batch from a directory below with every argument spelled ../ added",
+    "C17-3": "missed at first: no fault was a call argument of the wrong type; added (judged on the checker's diagnostic)",
+    "C17-4": "missed at first: calls were never arguments of other calls; a statement shape with a nested call added",
+    "C20-3": "missed at first: every edit replaced the text by an unrelated one; edits that move the same text (blank lines, comments, indentation) added",
+}
+
+# second-round changes that are not caught by the check of their property, and why
+NOT_CAUGHT = {
+    "C02-4": "changes evaluation, not the parse tree C02 observes (`ucglib::parse::parse`); caught by C01 (compiled evaluation vs reference semantics)",
+    "C10-4": "shows only in `ucg repl`; C10 observes FileBuilder::eval_string (the property's observe_at), no check drives the repl",
+    "C11-4": "shows only in `ucg repl`; C11 observes the tokenizer and build output, no check drives the repl",
+    "C18-4": "shows only in `ucg repl`; C18 observes `ucg build`, no check drives the repl",
+    "C18-3": "no longer manifests on the current tree: repair f3aa3d3 removed the checker defect (env inferred as a one-field tuple) that this change exposed; its demonstration passes on HEAD + patch. C18 now reads several variables per program and fails on the tree without f3aa3d3",
 }
 
 conf = {}
-for l in open(os.path.join(ROOT, "seeded", "confirm.log")):
-    m = re.match(r"(C\d+)/(\d): tests passed=(\d+) failed=(\d+) demo_clean_rc=(\d+) demo_patched_rc=(\d+)", l)
-    if m:
-        conf[f"{m.group(1)}-{m.group(2)}"] = dict(tests_passed=int(m.group(3)), tests_failed=int(m.group(4)), demo_rc_clean_tree=int(m.group(5)), demo_rc_changed_tree=int(m.group(6)))
+for logname, offset in (("confirm.log", 0), ("confirm2.log", 2)):
+    lp = os.path.join(ROOT, "seeded", logname)
+    if not os.path.exists(lp):
+        continue
+    for l in open(lp):
+        m = re.match(r"(C\d+)/(\d): tests passed=(\d+) failed=(\d+) demo_clean_rc=(\d+) demo_patched_rc=(\d+)", l)
+        if m:
+            conf[f"{m.group(1)}-{int(m.group(2)) + offset}"] = dict(tests_passed=int(m.group(3)), tests_failed=int(m.group(4)), demo_rc_clean_tree=int(m.group(5)), demo_rc_changed_tree=int(m.group(6)))
 
 for d in sorted(glob.glob(os.path.join(ROOT, "seeded", "C*-*"))):
     name = os.path.basename(d)
     pid = name.split("-")[0]
+    BASE = open(os.path.join(d, "base_commit")).read().strip() if os.path.exists(os.path.join(d, "base_commit")) else "43edbb9"
     notes = open(os.path.join(d, "notes.md"), encoding="utf-8").read()
     title = notes.splitlines()[0].lstrip("# ").strip()
     needs = ""
@@ -53,7 +87,7 @@ for d in sorted(glob.glob(os.path.join(ROOT, "seeded", "C*-*"))):
         "patch": "patch.diff (applies to %s)" % BASE + ("; patch.current.diff is the same edit ported onto the current /repo HEAD, whose repairs touched the same lines" if os.path.exists(os.path.join(d, "patch.current.diff")) else "; also applies to the current /repo HEAD"),
         "demonstration": demo[0] if demo else None,
         "confirmed": dict(
-            how="confirm_seed.sh: scratch worktree of %s outside /repo and /verif; demonstration on the clean tree, patch applied, `cargo test --offline --no-fail-fast`, demonstration on the changed tree; worktree removed afterwards" % BASE,
+            how="confirm_seed.sh / confirm_seed2.sh: scratch worktree of %s outside /repo and /verif; demonstration on the clean tree, patch applied, `cargo test --offline --no-fail-fast`, demonstration on the changed tree; worktree removed afterwards" % BASE,
             **conf.get(name, {}),
         ),
         "check_result": dict(
@@ -61,7 +95,13 @@ for d in sorted(glob.glob(os.path.join(ROOT, "seeded", "C*-*"))):
             **{k: res[k] for k in ("patch", "exit_code", "violations", "first_signature", "wall_seconds", "caught") if k in res},
         ),
     }
+    meta["round"] = 2 if BASE != "43edbb9" else 1
+    for k in ("caught_by_other_check",):
+        if k in res:
+            meta["check_result"][k] = res[k]
     if name in STRENGTHENED:
         meta["check_strengthened"] = STRENGTHENED[name]
+    if name in NOT_CAUGHT:
+        meta["not_caught_by_its_own_check"] = NOT_CAUGHT[name]
     json.dump(meta, open(os.path.join(d, "meta.json"), "w"), indent=1, ensure_ascii=False)
 print("wrote", len(glob.glob(os.path.join(ROOT, "seeded", "C*-*", "meta.json"))), "meta.json files")
